@@ -158,20 +158,17 @@ func New(startTime time.Time, logLevel slog.Level) *Handler {
 	// Galileo keeps GPS time.
 	startOfGalileoWeek := startOfGPSWeek
 
-	// Set the stored timestamps to match the start time.
-	timestampFromPreviousGPSMessage := (uint(startTime.Sub(startOfGPSWeek).Milliseconds()))
-	timestampFromPreviousGalileoMessage := timestampFromPreviousGPSMessage
-	timestampFromPreviousBeidouMessage := (uint(startTime.Sub(startOfBeidouWeek).Milliseconds()))
-
+	// The start time only has to be somewhere in the week of the first
+	// observation, so the first timestamp may be earlier than the start time.
+	// The stored timestamps are left at zero (the beginning of the week) so
+	// that the first message is never mistaken for a rollover into the next
+	// week.
 	handler := Handler{
-		startOfGPSWeek:                      startOfGPSWeek,
-		startOfGalileoWeek:                  startOfGalileoWeek,
-		startOfBeidouWeek:                   startOfBeidouWeek,
-		startOfGlonassWeek:                  startOfGlonassWeek,
-		timestampFromPreviousGPSMessage:     timestampFromPreviousGPSMessage,
-		timestampFromPreviousGalileoMessage: timestampFromPreviousGalileoMessage,
-		timestampFromPreviousBeidouMessage:  timestampFromPreviousBeidouMessage,
-		logLevel:                            level,
+		startOfGPSWeek:     startOfGPSWeek,
+		startOfGalileoWeek: startOfGalileoWeek,
+		startOfBeidouWeek:  startOfBeidouWeek,
+		startOfGlonassWeek: startOfGlonassWeek,
+		logLevel:           level,
 	}
 
 	return &handler
